@@ -107,7 +107,7 @@ pub const RADIX_EDGE: &[&str] = &[
 pub const NUM_TRAPS: &[&str] = &[
     "inf", "INF", "Inf", "infinity", "INFINITY", "-inf", "+inf", "nan", "NaN", "NAN", "1_0", "0x", "0X", "-0x10", "+0x10", "0x1.8", "0xg", "1e", "1e+", "1e-", ".", "+", "-", "e5", ".e5", "1,2", "12px",
     "1-2", "1+2", "1e5.5", "1ee5", "--1", "++1", "+-1", "Infinity", "-Infinity", "+Infinity", "Infinityx", "Infinit", " Infinity ", "0b", "0b12", "0o8", "0o", "1 2", "٣", "１", "1e1000", "-1e1000",
-    "1e-1000", "00", "007", "-0", "+0", "0.0", "-0.0", ".5", "5.", "1.e1", "1.0", "1.50", "9007199254740993", "18446744073709551616", "true", "false", "null", "undefined",
+    "1e-1000", "1,000", "1 000", "1\u{00a0}000", "1'000", "1.000,5", "1n", "1L", "1.0f", "1f", "$5", "5%", "5 %", "(5)", "1/2", "1:30", "2020-01-01", "0x1p3", "0x1.8p1", "1e3e3", "٣٫٥", "1..2", "1.2.3", "00", "007", "-0", "+0", "0.0", "-0.0", ".5", "5.", "1.e1", "1.0", "1.50", "9007199254740993", "18446744073709551616", "true", "false", "null", "undefined",
 ];
 
 fn digits(max: usize) -> BoxedStrategy<String> {
@@ -248,7 +248,7 @@ pub const OP_NAMES: &[&str] = &[
     "filter", "reduce", "all", "some", "none",
 ];
 
-pub const KEY_POOL: &[&str] = &["a", "b", "c", "", "0", "1", "-1", "a.b", "x\\y", "é", "current", "accumulator", "var", "xs", "secret", "k", "2", "日本", "a b", "+", "length", "xs.length", "__proto__", "constructor", "a.length", "../a", "$root", "$.a", "index", "this", "$index", "$key", "xs.*", "*", "a.*", "*.a", "xs.#", "xs.0:1", "xs.1:", "xs.:1", "xs.-1:0"];
+pub const KEY_POOL: &[&str] = &["a", "b", "c", "", "0", "1", "-1", "a.b", "x\\y", "é", "current", "accumulator", "var", "xs", "secret", "k", "2", "日本", "a b", "+", "length", "xs.length", "__proto__", "constructor", "a.length", "../a", "$root", "$.a", "index", "this", "$index", "$key", "a?.b", "$..a", "a|b", "a||b", "a ?? b", "xs.*", "*", "a.*", "*.a", "xs.#", "xs.0:1", "xs.1:", "xs.:1", "xs.-1:0"];
 
 pub const SPECIAL_STRINGS: &[&str] = &[
     "", "0", "1", "a", "b", "ab", "abc", "false", "true", "null", " ", "1,2", ",", ",,", "[object Object]", "a.b", "a.0", "0.a", "-1", "x\\y", "x\\.y", "secret", "var", "1.0", "1e0", "10", "9", "2", "é",
